@@ -1224,7 +1224,12 @@ func (l *Lowerer) buildOverrideInitExpr(expr parser.Expr) ir.OverrideInitExpr {
 				return ir.OverrideInitLiteral{Value: float64(ival)}
 			}
 		}
-		val, err := strconv.ParseFloat(e.Value, 64)
+		s := e.Value
+		if e.Kind == parser.TokenFloatLiteral && len(s) > 1 && s[len(s)-1] == 'f' {
+			// "2.5f": the f32 suffix is not part of the number
+			s = s[:len(s)-1]
+		}
+		val, err := strconv.ParseFloat(s, 64)
 		if err != nil {
 			return nil
 		}
